@@ -3,16 +3,18 @@
 (* (MC_C13corpus, generated).  For every corpus case the evaluator must     *)
 (* return the expected value, or the expected error class; a don't-care     *)
 (* outcome is reported (and counted by the driver) but is not a mismatch.   *)
+(* Numbers with a fraction / exponent are exact decimals <<"dec", m, e>>    *)
+(* (documents, literals and expected results; compared by value).           *)
 (* Every disagreement is printed as one JSON line; the driver requires none.*)
 EXTENDS Jmespath, MC_C13corpus, Json
 VARIABLE i
 Init == i = 0
 Next == i < CorpusSize /\ i' = i + 1
-Agree(c, r) == IF c.res[1] = "err" THEN r = c.res ELSE r = c.res
+Agree(c, r) == IF c.res[1] = "err" THEN r = c.res ELSE r = NormV(c.res)
 Check == i >= 1 =>
   LET c == Corpus(i)
-      r == Search(c.ast, c.doc)
-      r2 == SearchDesc(c.ast, c.doc)
+      r == SearchN(c.ast, c.doc)
+      r2 == SearchDescN(c.ast, c.doc)
   IN IF r[1] = "dc" THEN PrintT(ToJson([k |-> "dc", tag |-> c.tag, why |-> r[2]]))
      ELSE IF Agree(c, r) \/ Agree(c, r2) THEN TRUE
      ELSE PrintT(ToJson([k |-> "mismatch", tag |-> c.tag, got |-> IF Abn(r) THEN r ELSE Wire(r)]))
